@@ -40,7 +40,7 @@ def plan(tier):
             ("dim1", 2, (2000 if tier == "quick" else 40000) // 2)]
 
 
-VIAS = ("ctor", "ctor", "ctor", "setbounds", "used-setbounds", "history")
+VIAS = ("ctor", "ctor", "ctor", "setbounds", "used-setbounds", "history", "aliased", "int-typed")
 vias = st.sampled_from(VIAS)
 
 
@@ -84,7 +84,24 @@ def make(n, m, lo=None, hi=None, via="ctor"):
     from iOpt.evolvent.evolvent import Evolvent
     if lo is None:
         lo, hi = evo.unit_bounds(n)
-    if via == "ctor":
+    if via == "int-typed" and all(float(v).is_integer() for v in list(lo) + list(hi)):
+        # integer-valued bounds written as Python ints or as an integer array, as the repository's own tests do
+        ilo, ihi = [int(v) for v in lo], [int(v) for v in hi]
+        if (n + m) % 2:
+            return Evolvent(ilo, ihi, n, m)
+        import numpy as np
+        return Evolvent(np.array(ilo), np.array(ihi), n, m)
+    if via == "aliased":
+        # the caller passes float64 arrays and later re-uses them for something else
+        import numpy as np
+        alo, ahi = np.array(lo, dtype=np.double), np.array(hi, dtype=np.double)
+        ev = Evolvent(alo, ahi, n, m) if (n + m) % 2 else Evolvent([0.0] * n, [1.0] * n, n, m)
+        if not (n + m) % 2:
+            ev.SetBounds(alo, ahi)
+        alo[:] = alo - 7.0 * (ahi - alo) - 3.0
+        ahi[:] = ahi * 0.0 + 1e3
+        return ev
+    if via in ("ctor", "int-typed"):
         return Evolvent(lo, hi, n, m)
     if via == "history":
         return HistoryEvolvent(Evolvent(lo, hi, n, m), lo, hi)
